@@ -1,4 +1,9 @@
 """Per-property configuration of the generic check driver."""
+LT = ("Theorems in Coq 8.16.1 about a hand-written executable Gallina model of the code the property is anchored in (Properties/<id>.v, every theorem closed by Print Assumptions); "
+      "on every run the model is evaluated in-kernel (vm_compute) on the cases the real code just executed and the projected observables are compared, and the property's own oracle is evaluated on the implementation "
+      "(failing-input search). See DESIGN.md for what the theorems of this property cover and what is only exercised.")
+LN = ("Trusted: Coq kernel and vm_compute; the hand-written model (tied to /repo only by this run's correspondence check); the Go harness and its oracles; Go toolchain. "
+      "Known findings listed in known_findings.json are reported as KNOWN-FINDING and excluded by signature.")
 PROPS = {
     "C19": dict(
         imports="Blob.Bytes Blob.BytesCorr", check="C19_check", ctype="C19_case", show="brun binit (fst c)",
@@ -17,68 +22,68 @@ PROPS = {
         show="run kv_init (fst c)", n=dict(quick=400, thorough=8000), chunk=100,
         rule="state-aware random namespace histories (8..30 ops over names a,b,ab to depth 3, full flag product); "
              "distinct = distinct (ops, observations) term; all cases non-trivial (>= 8 ops)",
-        level_text="TODO", level_note="TODO",
+        level_text=LT, level_note=LN,
         assumptions=[],
     ),
     "C02": dict(
         imports="Base.Path KV.Types KV.FS KV.Handle KV.Run KV.Corr", check="C01_check", ctype="kv_case",
         show="run kv_init (fst c)", n=dict(quick=500, thorough=10000), chunk=100,
         rule="random handle histories: 1..3 handles on one file (all access modes x APPEND x TRUNC x CREATE), reads/writes/seeks/truncates with offsets -2..size+40, buffer lengths 0..16; distinct = distinct term",
-        level_text="TODO", level_note="TODO", assumptions=[],
+        level_text=LT, level_note=LN, assumptions=[],
     ),
     "C17": dict(
         imports="Base.Path KV.Types KV.FS KV.Handle KV.Run KV.Corr", check="C01_check", ctype="kv_case",
         show="run kv_init (fst c)", n=dict(quick=500, thorough=10000), chunk=100,
         rule="random handle histories mixing Close (then every method), Remove/Rename of the handle's path and I/O through the older handle; distinct = distinct term",
-        level_text="TODO", level_note="TODO", assumptions=[],
+        level_text=LT, level_note=LN, assumptions=[],
     ),
     "C05": dict(
         imports="Base.Path KV.Types KV.FS KV.Handle KV.Run KV.Corr", check="C05_check", ctype="kv_case",
         show="run kv_init (fst c)", n=dict(quick=500, thorough=10000), chunk=100,
         rule="state-aware namespace histories biased to failing calls; every failing call's error (type, path fields, sentinel class) compared with os; distinct = distinct term",
-        level_text="TODO", level_note="TODO", assumptions=[],
+        level_text=LT, level_note=LN, assumptions=[],
     ),
     "C04": dict(
         imports="Base.Path KV.Types KV.FS KV.Handle KV.Run KV.Corr", check="C05_check", ctype="kv_case",
         show="run kv_init (fst c)", n=dict(quick=120, thorough=3000), chunk=150,
         rule="~60 fixed name shapes around the ValidPath boundary + n fuzzed names over {a,d,f,.,/,\\,:,multi-byte,0xff} x every entry point x layers "
              "{mem, Sub(mem), mount, os.FS, Sub(os.FS), cache, tar}; non-trivial = an FS-operation case (ValidPath-only cases are flagged trivial)",
-        level_text="TODO", level_note="TODO", assumptions=[],
+        level_text=LT, level_note=LN, assumptions=[],
     ),
     "C03": dict(
         imports="Base.Path KV.Types KV.FS KV.Handle KV.Run KV.Corr", check="C01_check", ctype="kv_case",
         show="run kv_init (fst c)", n=dict(quick=600, thorough=12000), chunk=100,
         rule="namespace histories including removal/renaming of the root, renames into the own subtree, creation below files; on mem, keyvalue over a plain Store, "
              "mount.FS over three mem.FS and a Sub view; invariant evaluated after every step over all 39 candidate paths (depth<=3 over a,b,ab) of every view; distinct = distinct term",
-        level_text="TODO", level_note="TODO", assumptions=[],
+        level_text=LT, level_note=LN, assumptions=[],
     ),
     "C16": dict(
         imports="Base.Path KV.Types KV.FS KV.Handle KV.Run KV.Corr", check="C16_check", ctype="kv_case",
         show="run kv_init (fst c)", n=dict(quick=800, thorough=8000), chunk=60,
         rule="directories with 0..300 children (files and directories, one of them a mount point in the mount layer) listed by name and through a handle with page-size "
              "sequences {-1, 0, k+1, k, k-1, huge, mixed 1..7}; layers mem, keyvalue/plain store, mount, inside a mount, Sub, cache, tar, os.FS; distinct = distinct (layer, children, pages)",
-        level_text="TODO", level_note="TODO", assumptions=[],
+        level_text=LT, level_note=LN, assumptions=[],
     ),
     "C18": dict(
         imports="Txn.Txn Txn.TxnCorr", check="C18_check", ctype="C18_case",
         show="let '(which, init, calls, _, _, _) := c in trun which (t_begin init) calls", n=dict(quick=3000, thorough=60000), chunk=500,
         rule="random call sequences (1..10 calls of Get/GetHandler/Set/SetHandler/Abort/Commit over 3 keys, handlers that succeed, fail, abort, abort+fail) on the mem store's "
              "transaction (through the verif hook) and on the serial fallback over a plain Store, after a committed initial transaction; distinct = distinct term",
-        level_text="TODO", level_note="TODO", assumptions=[],
+        level_text=LT, level_note=LN, assumptions=[],
     ),
     "C14": dict(
         imports="Base.Path KV.Types KV.FS KV.Handle KV.Run KV.Corr", check="C14_check", ctype="C14_case",
         show="run (with_fault kv_init (fst c)) (fst (snd c))", n=dict(quick=1500, thorough=30000), chunk=100,
         rule="namespace and handle histories (<=14 ops) on keyvalue.FS over a plain Store (serial fallback) and over a TransactionStore; for every history the failure-free run and one run per "
              "store-call index with exactly that call (Get, Set, lazy Data(), lazy ReadDirNames()) failing; distinct = distinct (fault index, history) term",
-        level_text="TODO", level_note="TODO", assumptions=[],
+        level_text=LT, level_note=LN, assumptions=[],
     ),
     "C09": dict(
         imports="Base.Path OSPath.OSPath", check="C09_check", ctype="os_case",
         show="c", n=dict(quick=400, thorough=20000), chunk=600,
         rule="roots from 0..3 Sub calls over names with '.', '..', empty elements, backslash and colon; volumes '', C:, D:, UNC share; (linux,'/') and (windows,'\\') conventions through the verif shim; "
              "per configuration 6 names and OS-path candidates derived from them (trailing/double separators, '..', root look-alikes, other volume, relative); plus failing calls on the real os.FS under 0..2 Sub roots; distinct = distinct term",
-        level_text="TODO", level_note="TODO", assumptions=[],
+        level_text=LT, level_note=LN, assumptions=[],
     ),
     "C06": dict(
         imports="Base.Path KV.Types KV.FS KV.Handle KV.Run KV.Corr Compose.Mount", check="C06_check", ctype="C06_case",
@@ -86,35 +91,35 @@ PROPS = {
         rule="random sets of 0..4 mount points from {a, ab, a/b, a/b/ab, b} (nested points, string-prefix look-alikes) in random insertion order over mem.FS constituents; "
              "namespace histories through mount.FS compared step by step with the same history on one flat mem.FS (result, error, and the exact contents of every constituent); "
              "Mount(p) for all 120 paths of depth<=4; AddMount guards and 2..6 concurrent AddMount of one point; distinct = distinct term",
-        level_text="TODO", level_note="TODO", assumptions=[],
+        level_text=LT, level_note=LN, assumptions=[],
     ),
     "C07": dict(
         imports="Base.Path KV.Types KV.FS KV.Handle KV.Run KV.Corr Compose.Mount Compose.Sub", check="C07_check", ctype="C07_case",
         show="let '(dir, prep, ops, _) := c in srun dir (fold_left (fun s o => fst (step s o)) prep kv_init) ops", n=dict(quick=500, thorough=8000), chunk=60,
         rule="namespace histories run twice from identical start states: through Sub(fs, dir) at name, and on fs at dir/name; results (error paths translated) and the underlying trees compared after every step; "
              "fs in {mem, mount.FS with dir at/inside the mount point, mount.FS with dir above the mount point, os.FS (native Sub), an FS exposing only Open}; dir in {., a, a/b, ab}; one-step and nested Sub(Sub(..)); distinct = distinct term",
-        level_text="TODO", level_note="TODO", assumptions=[],
+        level_text=LT, level_note=LN, assumptions=[],
     ),
     "C08": dict(
         imports="Base.Path KV.Types KV.FS KV.Handle KV.Run KV.Corr Compose.Helpers", check="C08_check", ctype="C08_case",
         show="let '(cp, prep, o, _, _) := c in cstep cp (fold_left (fun s x => fst (step s x)) prep kv_init) o", n=dict(quick=2500, thorough=40000), chunk=150,
         rule="for each of the 18 package helpers: every subset of the interfaces its dispatch inspects (generated wrapper types, 36 distinct method sets) over mem.FS and over os.FS, "
              "start states and arguments from the C01 alphabet; then a failure injected into every primitive call (FS method or file method) the chosen path makes; distinct = distinct (helper, subset, state, argument[, fault])",
-        level_text="TODO", level_note="TODO", assumptions=[],
+        level_text=LT, level_note=LN, assumptions=[],
     ),
     "C10": dict(
         imports="Cache.Cache", check="C10_check", ctype="C10_case",
         show="let '(src, retained, can_remove, ops, _, _) := c in cruns src (fun n => mem_str n retained) 512 can_remove cinit ops", n=dict(quick=400, thorough=6000), chunk=100,
         rule="random source trees (files of 0,1,511,512,513,1024,2048,5000 bytes, directories to depth 3), RetainData always/never/by size/by name, cache store mem.FS or an FS exposing only OpenFile+Mkdir; "
              "random access sequences (Open, Stat, Read of 0..6000 bytes, Seek, paged ReadDir, handle Stat, Close) answered by the cache and by the source directly; source reads counted; distinct = distinct case text",
-        level_text="TODO", level_note="TODO", assumptions=[],
+        level_text=LT, level_note=LN, assumptions=[],
     ),
     "C11": dict(
         imports="Cache.Cache", check="C10_check", ctype="C10_case",
         show="let '(src, retained, can_remove, ops, _, _) := c in cruns src (fun n => mem_str n retained) 512 can_remove cinit ops", n=dict(quick=400, thorough=4000), chunk=100,
         rule="for files of 0..5000 bytes at depth 1..3 and both cache store kinds: a fault at every source read index and at every cache-store call (mkdir, create, each write with a partial write, close) of the fill, "
              "then three fault-free re-opens; plus 2..4 concurrent first opens with the copy paused at chunk boundaries (simultaneous copies counted); distinct = distinct (size, store, fault) cell",
-        level_text="TODO", level_note="TODO", assumptions=[],
+        level_text=LT, level_note=LN, assumptions=[],
     ),
     "C12": dict(
         imports="Base.Path KV.Types KV.FS KV.Handle KV.Run KV.Corr Tar.Unpack", check="C12_check", ctype="C12_case",
@@ -122,7 +127,7 @@ PROPS = {
         rule="random archives built with archive/tar: 1..6 entries (or 90..130 small files, more than the 81-buffer pool) in shuffled order (children before parents, explicit and implied directories), "
              "name spellings ./x /x a//b x/. a/./b a/x/../b, permission bits, sizes 0..40, 511/512/513/1024, 150KiB-1/150KiB/150KiB+1 (thorough: >4MiB); 1 in 10 with an entry resolving outside the root; "
              "destination default / mem.FS / OpenFile+Chmod+Mkdir only / os.FS in a temp dir; unpacked tree vs the logical tree computed by the harness; distinct = distinct case text",
-        level_text="TODO", level_note="TODO", assumptions=[],
+        level_text=LT, level_note=LN, assumptions=[],
     ),
     "C13": dict(
         imports="Base.Path Tar.Unpack Tar.PubSub", check="C13_pubsub_check", ctype="C13_pubsub_case",
@@ -130,7 +135,7 @@ PROPS = {
         rule="pubsub scripts (wait/emit/cancel over 2 keys with real goroutines, blocked/returned state checked after every step) and bufferPool bounds through the verif shim; "
              "end to end: 6 archives streamed block by block through a controllable reader, modes clean / truncated at block k / read error at block k / caller cancellation at block k / k-th destination call fails, "
              "destination writes split in two halves and paused, 1..8 openers started before, during and after the stream; distinct = distinct (archive, mode, point, openers)",
-        level_text="TODO", level_note="TODO", assumptions=[],
+        level_text=LT, level_note=LN, assumptions=[],
     ),
     "C15": dict(
         imports="Base.Path KV.Types Conc.Conc", check="C15_check", ctype="C15_case",
@@ -138,6 +143,14 @@ PROPS = {
         rule="small concurrent programs (2..3 goroutines x 1..3 operations) on keyvalue.FS over the real in-memory store wrapped with scheduling points at every store transaction and lazy directory listing; "
              "every schedule enumerated by stateless depth-first search (budget 600 per program; 3000 for the model's Mkdir/Remove/Stat alphabet, where the complete outcome SET is compared with the model's); "
              "half of the programs use disjoint subtrees per goroutine (must commute), half share paths; plus free-running stress with 8 goroutines; distinct = distinct program",
-        level_text="TODO", level_note="TODO", assumptions=[],
+        level_text=LT, level_note=LN, assumptions=[],
+    ),
+    "C20": dict(
+        imports="Fstest.Assert", check="C20_check", ctype="C20_case",
+        show="let '(mask, expected, actual, _) := c in tree_assert mask expected actual", n=dict(quick=100, thorough=100), chunk=300,
+        rule="the real fstest.FS + fstest.File suites run (one process per file system) on the unmodified mem.FS and os.FS and on a catalogue of 54 single-deviation wrappers around mem.FS "
+             "(operation is a no-op / applied twice / leaves or drops an entry / wrong permission bits, size, bytes / wrong error kind, path, type / EOF anomalies); "
+             "plus 200 generated (expected, actual tree, FileModeMask) triples whose real tryAssertEqualFS verdict is compared with the model's; distinct = distinct deviant or triple",
+        level_text=LT, level_note=LN, assumptions=[],
     ),
 }
